@@ -10,7 +10,9 @@ RULE = ("four modes x message lengths 0..80 (encrypt, decrypt of the real cipher
         "ciphertexts, every last-block and previous-block byte corruption, crafted paddings 0..49/255, every final-byte value "
         "0..255 of the raw decryption (three constructions, both key sizes), carries after 1..7 ff bytes, 16 KiB +-1, empty "
         "inputs on every entry point (encrypt/decrypt/encrypt_impl/decrypt_impl), every key and IV length 0..40, message "
-        "lengths in every residue class mod 256, constant/edge-valued keys and IVs, key = IV; "
+        "lengths in every residue class mod 256, constant/edge-valued keys and IVs, key = IV; call-history stream: every "
+        "ordered pair of (mode, encrypt/decrypt, length class) back to back in the one driver process (de Bruijn sequence), "
+        "long-then-short and failing-then-good calls for every pair of modes; "
         "non-trivial = the model returns OK; distinct by (op, arguments)")
 TRUSTED = ["hand-written Gallina model coq/Model/AesApi.v of src/encryption/mod.rs + block-modes 0.8.1 / block-padding 0.2.1 / "
            "aes 0.7.5 CTR flavour (tied by this correspondence run)",
@@ -334,6 +336,55 @@ def generate(rng, tier):
         E(mode, key, iv, key); E(mode, key, iv, iv); R(mode, key, iv, bytes(48)); R(mode, key, iv, b"\x10" * 16); R(mode, key, iv, b"\x01")
         if kl == 16:
             E(mode, iv, key, rb(rng, 20))                   # roles swapped (same type, same length)
+
+    # 9. call-history stream: the driver runs all cases in ONE process in order, so consecutive cases are consecutive
+    #    library calls.  States = mode x {encrypt, decrypt} x length class {empty, 5, 32, 150 bytes}; the sequence below is
+    #    a de Bruijn sequence B(32, 2), i.e. EVERY ordered pair of states occurs back to back exactly once (longer-then-
+    #    shorter, shorter-then-longer, CBC-then-CTR, 128-then-256, encrypt-then-decrypt, same call twice, ...).  Keys and
+    #    IVs are reused from the previous call of the same key size half of the time, fresh otherwise.
+    states = [(m, o, L) for m in MODES for o in ("e", "d") for L in (0, 5, 32, 150)]
+    k = len(states)
+    seq, a = [], [0] * (2 * k)
+
+    def db(t, p):
+        if t > 2:
+            if 2 % p == 0:
+                seq.extend(a[1:p + 1])
+        else:
+            a[t] = a[t - p]
+            db(t + 1, p)
+            for j in range(a[t - p] + 1, k):
+                a[t] = j
+                db(t + 1, t)
+    db(1, 1)
+    seq = seq + seq[:1]
+    assert len(seq) == k * k + 1 and len({(seq[i], seq[i + 1]) for i in range(k * k)}) == k * k
+    last = {16: (rb(rng, 16), rb(rng, 16)), 32: (rb(rng, 32), rb(rng, 16))}
+    for i in seq:
+        mode, o, L = states[i]
+        kl = klen(mode)
+        if rng.random() < 0.5:
+            last[kl] = (rb(rng, kl), rb(rng, 8) + bytes([rng.randrange(128)]) + rb(rng, 7))
+        elif rng.random() < 0.3:
+            last[kl] = (last[kl][0], last[48 - kl][1])              # same key, the IV of the other key size's last call
+        key, iv = last[kl]
+        msg = rb(rng, L)
+        if o == "e":
+            (E if rng.random() < 0.8 else EI)(mode, key, iv, msg)
+        else:
+            ct = cbc_pkcs7(key, iv, msg) if mode.endswith("cbc") else ctr128(key, iv, msg)
+            (D if rng.random() < 0.8 else DI)(mode, key, iv, ct)
+    # a long call immediately followed by short ones of every mode (a reused scratch buffer would leak its tail),
+    # and a failing call (bad padding / wrong sizes) followed by a good one
+    for big in MODES:
+        for small in MODES:
+            kb, ks = rb(rng, klen(big)), rb(rng, klen(small))
+            iv = rb(rng, 8) + b"\x00" + rb(rng, 7)
+            R(big, kb, iv, "l:%d:3000" % rng.randrange(1, 1 << 31))
+            E(small, ks, iv, rb(rng, 1)); R(small, ks, iv, rb(rng, 17)); E(small, ks, iv, b"")
+            D(big, kb, iv, "l:%d:1600" % rng.randrange(1, 1 << 31))
+            D(small, ks, iv, cbc_pkcs7(ks, iv, b"ab") if small.endswith("cbc") else ctr128(ks, iv, b"ab"))
+            E(big, rb(rng, 5), iv, rb(rng, 40)); E(small, ks, iv, rb(rng, 40)); D(big, kb, rb(rng, 3), rb(rng, 32)); R(small, ks, iv, rb(rng, 16))
 
     # 7. random sizes
     nrand = 150 if tier == "quick" else 2500
